@@ -87,6 +87,13 @@ thread_local! {
     pub static BUILD_ORDER: std::cell::Cell<u8> = std::cell::Cell::new(0);
 }
 
+/// attribute type used in application lists to mean "remove the attribute of the type given in the value"
+pub const REMOVE_MARK: u16 = 0xFFFE;
+
+pub fn remove_op(ty: u16) -> L {
+    L::Unknown(REMOVE_MARK, Some(ty.to_be_bytes().to_vec()))
+}
+
 /// what the caller's buffer holds before a send: never zeros, so bytes the encoder fails to write show up
 pub const DIRTY: u8 = 0xA5;
 
@@ -313,6 +320,20 @@ impl World {
         let mut a = StunAttributes::default();
         let key = stun_rs::HMACKey::new_short_term("application-key").unwrap();
         for l in &self.app_lists[app % self.app_lists.len()] {
+            // an application also REMOVES attributes from its collection: `Unknown(REMOVE_MARK, [type])` stands for
+            // `remove::<T>()` of that type
+            if let L::Unknown(REMOVE_MARK, Some(t)) = l {
+                use stun_rs::attributes::stun::{Fingerprint, MessageIntegrity, MessageIntegritySha256, Software, UserName};
+                match u16::from_be_bytes([t[0], t[1]]) {
+                    codec::T_MI => drop(a.remove::<MessageIntegrity>()),
+                    codec::T_SHA => drop(a.remove::<MessageIntegritySha256>()),
+                    codec::T_FP => drop(a.remove::<Fingerprint>()),
+                    codec::T_SOFTWARE => drop(a.remove::<Software>()),
+                    codec::T_USERNAME => drop(a.remove::<UserName>()),
+                    _ => {}
+                }
+                continue;
+            }
             if let Ok(x) = to_subject(l, Some(&key)) {
                 a.add(x);
             }
